@@ -6,6 +6,9 @@ from tjlib import *
 BOUNDARY_LENS = list(range(0, 41)) + [63, 64, 65, 66, 255, 256, 257, 258, 1023, 1024, 1025, 1026] + list(range(4093, 4101))
 AD_LENS = list(range(0, 10)) + [15, 16, 17, 31, 32, 33, 100]
 
+def flip(b, bit):
+    b = bytearray(b); b[bit // 8] ^= 1 << (bit % 8); return bytes(b)
+
 def aead_line(op, c):
     return '%s %d %s %s %s %s %d %d' % (op, c['v'], hx(c['key']), hx(c['nonce']),
                                         'NULL' if c.get('ad_null') else hx(c['ad']),
@@ -27,8 +30,23 @@ def aead_cases(g, tier, mode):
         for _ in range(300):
             cases.append((g.choice([128, 192, 256]), g.randint(0, 70), g.randint(0, 300)))
     out = []
+    lastkey = {}; lastnonce = None
     for (v, al, ml) in cases:
-        c = {'mode': mode, 'v': v, 'key': g.bytes(KEYLEN[v]), 'nonce': g.bytes(12), 'ad': g.bytes(al), 'm': g.bytes(ml),
+        key = g.bytes(KEYLEN[v]); nonce = g.bytes(12)
+        # related keys / nonces across consecutive calls in one process (same key again, shared prefix or suffix,
+        # one bit apart): any cached or leftover per-key state would show up as a difference from the model
+        r = g.random()
+        if v in lastkey and r < 0.35:
+            k0 = lastkey[v]; h = KEYLEN[v] // 2
+            rel = g.choice(['same', 'prefix', 'suffix', 'bit', 'prefix16'])
+            if rel == 'same': key = k0
+            elif rel == 'prefix': key = k0[:h] + g.bytes(KEYLEN[v] - h, 'rand')
+            elif rel == 'prefix16': key = k0[:16] + g.bytes(KEYLEN[v] - 16, 'rand')
+            elif rel == 'suffix': key = g.bytes(h, 'rand') + k0[h:]
+            else: key = flip(k0, g.randint(0, KEYLEN[v] * 8 - 1))
+            if lastnonce is not None and g.random() < 0.5: nonce = lastnonce
+        lastkey[v] = key; lastnonce = nonce
+        c = {'mode': mode, 'v': v, 'key': key, 'nonce': nonce, 'ad': g.bytes(al), 'm': g.bytes(ml),
              'inplace': 1 if g.random() < 0.4 else 0, 'align': g.randint(0, 7)}
         if al == 0 and g.random() < 0.5: c['ad_null'] = True
         if ml == 0 and not c['inplace'] and g.random() < 0.3: c['m_null'] = True
@@ -43,9 +61,6 @@ def nontrivial_aead(c):
     std = c['key'] == bytes(range(len(c['key']))) and c['nonce'] == bytes(range(12))
     special = any(b >= 0x80 for b in c['m'] + c['ad']) or len(c['m']) > 32 or len(c['ad']) > 32 or c['inplace'] or c['align']
     return (not std) and bool(special)
-
-def flip(b, bit):
-    b = bytearray(b); b[bit // 8] ^= 1 << (bit % 8); return bytes(b)
 
 def tamper_cases(g, tier, packets):
     """packets: list of (case, ciphertext bytes).  Returns list of (case-for-dec, kind) where the dec case has field 'c'."""
@@ -64,6 +79,12 @@ def tamper_cases(g, tier, packets):
                 i, j = g.sample(range(8), 2)
                 t = bytearray(ct[n - 8:]); t[i] ^= g.randint(1, 255); t[j] ^= g.randint(1, 255)
                 d = dict(base); d['c'] = ct[:n - 8] + bytes(t); out.append((d, 'tag2byte'))
+            # the same difference in two bytes (cancels in XOR-folded or word-wise comparisons), all 28 position pairs
+            for i in range(8):
+                for j in range(i + 1, 8):
+                    x = g.choice([1, 0x80, 0xff, g.randint(1, 255)])
+                    t = bytearray(ct[n - 8:]); t[i] ^= x; t[j] ^= x
+                    d = dict(base); d['c'] = ct[:n - 8] + bytes(t); out.append((d, 'tagpair'))
         d = dict(base); d['c'] = ct[:n - 8] + g.bytes(8, 'rand'); out.append((d, 'tagrand'))
         if n > 8:
             for bit in g.sample(range((n - 8) * 8), min(3, (n - 8) * 8)):
